@@ -222,18 +222,22 @@ func (fc *dataFlushChecker) requestFlushJob(request *flushRequest) {
 	if !fc.running.Load() {
 		return
 	}
-	if _, ok := fc.dbInFlushing.Load(request.db.Name()); ok {
+	// mark the database as in flushing queue BEFORE the request is handed to the workers: a worker which finishes
+	// the job before this goroutine goes on deletes the mark, a mark stored after that would stay for ever and
+	// every later flush request of the database would be dropped.
+	if _, ok := fc.dbInFlushing.LoadOrStore(request.db.Name(), request); ok {
 		// if shard is in flushing queue, returns it
 		return
 	}
+	// add count of flush in flight
+	fc.flushInFlight.Inc()
 	select {
 	case <-fc.ctx.Done():
+		fc.flushInFlight.Dec()
+		fc.dbInFlushing.Delete(request.db.Name())
 		return
 	case fc.flushRequestCh <- request:
 		verifGate("flushchecker.sent")
-		fc.dbInFlushing.Store(request.db.Name(), request)
-		// add count of flush in flight
-		fc.flushInFlight.Inc()
 	}
 }
 
